@@ -245,7 +245,8 @@ pub fn gen(seed: u64, thorough: bool) -> Vec<String> {
         Kind::Dx10 { cube: false, dim: 2, array: u32::MAX },
         Kind::Dx9 { caps2: 0x200 | 0x200000 },
     ];
-    for faces in 0..64u32 {
+    // the 63 non-empty face sets (a cube-map flag without any face is outside the property's quantifier)
+    for faces in 1..64u32 {
         kinds.push(Kind::Dx9 { caps2: 0x200 | (faces << 10) });
     }
     for px in &shapes {
@@ -263,8 +264,12 @@ pub fn gen(seed: u64, thorough: bool) -> Vec<String> {
         let kind = match rng.below(12) {
             0..=2 => Kind::Dx9 { caps2: 0 },
             3 => Kind::Dx9 { caps2: 0x200000 },
-            4 => Kind::Dx9 { caps2: 0x200 | ((rng.below(64) as u32) << 10) },
-            5 => Kind::Dx9 { caps2: rng.next() as u32 & 0x0020_FE00 | (rng.next() as u32 & rng.next() as u32 & 0xFFDF_01FF) },
+            4 => Kind::Dx9 { caps2: 0x200 | ((rng.range(1, 63) as u32) << 10) },
+            5 => {
+                // arbitrary caps2 words; a cube-map flag always comes with at least one face (63 face sets)
+                let c = rng.next() as u32 & 0x0020_FE00 | (rng.next() as u32 & rng.next() as u32 & 0xFFDF_01FF);
+                Kind::Dx9 { caps2: if c & 0x200 != 0 && (c >> 10) & 63 == 0 { c | (1 << (10 + rng.below(6))) } else { c } }
+            }
             6..=7 => Kind::Dx10 { cube: false, dim: *rng.pick(&[1, 2, 2, 2, 3]), array: 1 },
             8..=9 => Kind::Dx10 { cube: false, dim: *rng.pick(&[1, 2, 2, 2, 3]), array: any_u32(&mut rng, &bset) },
             10 => Kind::Dx10 { cube: true, dim: *rng.pick(&[1, 2, 2, 2, 2, 3]), array: any_u32(&mut rng, &bset) },
